@@ -13,6 +13,7 @@ external flag oracle.  Correspondence (Env::new(None, None, Some(flag)), flag ow
      log and the variables of a boundary configuration of the model with that log."""
 import itertools
 import os
+import shutil
 import vlib
 from props import runner_gen as G
 
@@ -382,6 +383,31 @@ def run(ck):
                     "replay_cmd": "printf '%s\\n' | .cache/cargo-target/release/c13" % c["impl"].replace("\t", "\\t")})
         elif len(log_entries(f[4])) >= 2:
             nontriv.add("N\t" + c["impl"])
+
+    # ---- (b') the flag is raised by a fire-and-forget thread WHILE THE SCRIPT IS STILL BEING LOADED ---------------------
+    # (run_script_file on a named pipe: the raiser lets go of its handle right after raising; the Env holds the only other
+    # handle).  The flag is up at the first poll, so by C13_prefix with k = 0 the run returns Ok before any instruction.
+    wdir = os.path.join(vlib.CACHE, "c13", "w%d" % os.getpid())
+    w_texts = ["hlog a\nhlog b\nx = hlog c\n", "x = hlog 1\n", "while true\nhlog loop\nend\n", "a = set 1\nhlog ${a}\n",
+               "fn f\nhlog in\nend\nf\nhlog after\n"] * (4 if thorough else 1)
+    w_lines = ["W\t%s\t%s\t%s" % (vlib.enc_str(os.path.join(wdir, "s%d.fifo" % k)), vlib.enc_str(t), vlib.enc_list(NESTED_WATCH))
+               for k, t in enumerate(w_texts)]
+    w_out = ck.impl(w_lines, timeout=120)
+    stats["watchdog_during_load_cases"] = len(w_lines)
+    for line, t, o in zip(w_lines, w_texts, w_out):
+        if o == "NOFIFO":
+            stats["watchdog_during_load_cases"] -= 1
+            continue
+        f = o.split("\t")
+        ok = len(f) == 3 and f[0] == "OK" and f[1] == "-" and all(x.endswith("=N") for x in f[2].split(";"))
+        if not ok:
+            found = True
+            if len(ck.violations) < 5:
+                ck.violation({"kind": "the flag was raised (by a thread that then dropped its handle) while the script file was still "
+                                      "being read: the run must return Ok with no instruction started (C13_prefix with k = 0)",
+                              "script": t, "implementation": o, "expected": "OK, empty invocation log, no variable defined",
+                              "wire": line, "theorems": ["C13_prefix", "C13_boundary"], "seed": ck.seed})
+    shutil.rmtree(wdir, ignore_errors=True)
 
     # ---- (c) second thread ---------------------------------------------------------------------------
     t_cases = []
